@@ -82,6 +82,34 @@ def r04_1(prog, rep, rid='R04.1'):
     if len(s3) != 1:
         raise AnalysisError('UNRECOGNISED-IDIOM %s: loop over the wait list %s '
                             'not found' % (f.where, wl))
+    # the wait list is filled and drained once per iteration of the enclosing
+    # (priority) loop: it must be created inside that iteration, else tasks of
+    # an earlier iteration are drained (inserted into a pool) again
+    if s3[0].loops:
+        L = s3[0].loops[-1]
+        lstart = loop_slice(g, L)[0]
+        creators = [n.id for n in g.stmt_nodes() if n.kind == 'stmt' and
+                    isinstance(n.ast, ast.Assign) and any(
+                        isinstance(t, ast.Name) and t.id == wl
+                        for t in n.ast.targets) and L in n.loops]
+        clears = [n.id for n in g.stmt_nodes() if n.kind == 'stmt' and
+                  L in n.loops and any(
+                      isinstance(c.func, ast.Attribute) and
+                      c.func.attr == 'clear' and unparse(c.func.value) == wl
+                      for c in calls_in(n.ast))]
+        fresh = bool(creators + clears) and \
+            must_pass(g, lstart, s2[0].id, creators + clears)
+        rep.check(fresh, rid, f, 'the wait list `%s` is created anew in every '
+                  'iteration of the loop that fills and drains it' % wl,
+                  construct='waitlist:fresh', message='the wait list `%s` is '
+                  'filled and drained inside the priority loop but created '
+                  'outside of it: tasks which had to wait at a higher '
+                  'priority are inserted again into the wait pool of every '
+                  'lower priority handled in the same call' % wl,
+                  loc=f.loc(s3[0].ast),
+                  history='one bulk with tasks H (priority 1) and L '
+                  '(priority 0) which both have to wait: H sits in '
+                  '_waitpool[1] and _waitpool[0] and is started twice')
     okp = s3[0].loops == s2[0].loops and \
         s3[0].id in g.reachable(s2[0].id, labels={'done', 'next', 'T', 'F'})
     check_one_outcome(rep, rid, f, g, s3[0].id, s3[0].ast.target.id,
@@ -630,6 +658,9 @@ MUTATIONS = [
         (_B, "                    self.advance(to_cancel, rps.CANCELED,\n                                                       push=False, publish=True)", "                    self.advance(to_cancel, rps.CANCELED,\n                                                       push=False, publish=False)")]),
     dict(name='R03.3 grant not counted (R04.2 rests on it)', rules=('R03.3',), edits=[
         (_B, "            self._active_cnt += 1\n\n            # the task was placed", "            # the task was placed")]),
+    dict(name='R04.1 wait list shared by all priorities (seed C04-a)', rules=('R04.1',), edits=[
+        (_B, "            tasks   = to_schedule[priority]\n            to_wait = list()\n", "            tasks   = to_schedule[priority]\n"),
+        (_B, "        for priority in sorted(to_schedule.keys(), reverse=True):\n", "        to_wait = list()\n        for priority in sorted(to_schedule.keys(), reverse=True):\n")]),
 ]
 
 SILENT = [
